@@ -243,6 +243,97 @@ def gen_path(r, regions, opts):
     return ops
 
 
+def gen_episode_path(r, regions, opts):
+    """Dense episodes: the program enters and leaves regions several times, with encoding switches
+    (G90/G91, G20/G21), retract cycles, Z hops, deferred codes, G92 E and primes placed before,
+    inside and after every episode, and every way of ending an episode (move out, @-command)."""
+    ops = [("home",)]
+    mm = True
+    if opts.get("inch") and r.random() < 0.4:
+        ops.append(("unit", "in"))
+        mm = False
+    ops.append(("move", 5.0, 5.0, 0.2, 0.0, 3000))
+    st = {"retracted": False, "z": 0.2, "abs": True, "mm": mm, "x": 5.0, "y": 5.0}
+    a = opts.get("retract_len", 1.0)
+    allr = regions + opts.get("later_regions", [])
+
+    def goto(pool, ext_ok=True):
+        for _ in range(6):
+            nx, ny = r.choice(pool)
+            nx += r.choice([0, 0.5, -0.25])
+            ny += r.choice([0, 0.5, -0.25])
+            if classify(allr, nx, ny) != "edge":
+                break
+        else:
+            return
+        ext = ext_ok and (not st["retracted"]) and r.random() < 0.6
+        nz = None
+        if r.random() < 0.2:
+            st["z"] = round(st["z"] + r.choice([0.2, 0.4, -0.2] if st["z"] > 0.4 else [0.2]), 4)
+            nz = st["z"]
+        de = r.choice([0.5, 0.25, 1.0]) if ext else 0.0
+        if opts.get("wipe") and r.random() < 0.25:
+            de = -r.choice([0.5, 0.25])      # retracting move (wipe): outside the C04/C05 protocol
+        ops.append(("move", nx, ny, nz, de))
+        st["x"], st["y"] = nx, ny
+
+    def filler(inside):
+        k = r.random()
+        if k < 0.25:
+            if opts.get("fw"):
+                ops.append(("fw", "G11" if st["retracted"] else "G10", r.choice(["", "", "S1"])))
+            else:
+                ops.append(("eonly", a if st["retracted"] else -a))
+            st["retracted"] = not st["retracted"]
+        elif k < 0.35:
+            st["z"] = round(st["z"] + (r.choice([0.2, 0.4, -0.2]) if st["z"] > 0.4 else 0.2), 4)
+            ops.append(("z", st["z"]))
+        elif k < 0.47 and opts.get("inch"):
+            st["mm"] = not st["mm"]
+            ops.append(("unit", "mm" if st["mm"] else "in"))
+        elif k < 0.59 and opts.get("rel"):
+            st["abs"] = not st["abs"]
+            ops.append(("abs", st["abs"]))
+        elif k < 0.72:
+            ops.append(("code", r.choice(CODES)))
+        elif k < 0.77 and opts.get("g92e") and not opts.get("fw"):
+            ops.append(("g92e", r.choice([0.0, 0.0, 2.5])))
+        elif k < 0.82 and not st["retracted"] and not opts.get("fw"):
+            ops.append(("eonly", r.choice([0.5, 2.0])))
+        elif k < 0.86:
+            ops.append(("feed", r.choice([1200.0, 2400.0, 3000.0])))
+        else:
+            goto(GRID_IN if inside else GRID_OUT)
+
+    for _ep in range(r.randint(1, 4)):
+        for _ in range(r.randint(0, 3)):
+            filler(False)
+        goto(GRID_IN)
+        for _ in range(r.randint(0, 5)):
+            filler(True)
+        how = r.random()
+        if how < 0.65:
+            goto(GRID_OUT)
+        elif how < 0.9 and opts.get("at"):
+            ops.append(("at", "ExcludeRegion", r.choice(["off", "disable"])))
+            for _ in range(r.randint(0, 2)):
+                filler(True)
+            goto(GRID_OUT)
+            ops.append(("at", "ExcludeRegion", r.choice(["on", "enable"])))
+        # else: stay inside; the next episode's moves continue from here
+    for _ in range(r.randint(0, 3)):
+        filler(False)
+    goto(GRID_OUT)
+    if st["retracted"] and r.random() < 0.7:
+        if opts.get("fw"):
+            ops.append(("fw", "G11", ""))
+        else:
+            ops.append(("eonly", a))
+        st["retracted"] = False
+    goto(GRID_OUT)
+    return ops
+
+
 def encode_path(ops):
     """-> list of harness events: ('g', text) | ('at', cmd, params) | ('addregion', spec)."""
     enc = Encoder()
